@@ -445,3 +445,44 @@ Example ex_range_sum : go_range (fun i x s => if x =? 0 then @LoopReturn Z Z (- 
 Proof. repeat split. Qed.
 Example ex_deref : go_deref 7 (Some 3) = 3 /\ go_deref 7 None = 7 /\ list_len [1; 2; 3] = 3.
 Proof. repeat split. Qed.
+
+(** * 8. range over a string: the first code point *)
+(** an ASCII byte is its own code point; every other first byte gives a code point >= 128 (RuneError
+    included) and a width of 1..4 *)
+Ltac boolprops := repeat match goal with
+  | H : _ && _ = true |- _ => apply andb_true_iff in H; destruct H
+  | H : (_ <=? _) = true |- _ => apply Z.leb_le in H
+  end.
+Lemma go_utf8_decode_cases b0 t :
+  (b0 < 128 /\ go_utf8_decode (b0 :: t) = (b0, 1))
+  \/ (128 <= b0 /\ exists r w, go_utf8_decode (b0 :: t) = (r, w) /\ 128 <= r /\ 1 <= w <= 4).
+Proof.
+  destruct (Z_lt_le_dec b0 128) as [Hl | Hg].
+  - left. split; [exact Hl |]. unfold go_utf8_decode. apply Z.ltb_lt in Hl. now rewrite Hl.
+  - right. split; [exact Hg |]. unfold go_utf8_decode, utf8_cont. cbv zeta.
+    assert (E : (b0 <? 128) = false) by (apply Z.ltb_ge; exact Hg). rewrite E.
+    destruct ((194 <=? b0) && (b0 <=? 223)) eqn:C2.
+    { destruct t as [| b1 t]; [eexists _, _; repeat split; lia |].
+      destruct ((128 <=? b1) && (b1 <=? 191)) eqn:C; [| eexists _, _; repeat split; lia].
+      eexists _, _. split; [reflexivity |]. split; [| lia]. boolprops. Z.div_mod_to_equations. lia. }
+    destruct ((224 <=? b0) && (b0 <=? 239)) eqn:C3.
+    { destruct t as [| b1 [| b2 t]]; try (eexists _, _; repeat split; lia).
+      destruct (Z.eqb_spec b0 224), (Z.eqb_spec b0 237);
+        (match goal with |- context [if ?c then _ else _] => destruct c eqn:C end; [| eexists _, _; repeat split; lia]);
+        (eexists _, _; split; [reflexivity |]; split; [| lia]; boolprops; Z.div_mod_to_equations; lia). }
+    destruct ((240 <=? b0) && (b0 <=? 244)) eqn:C4.
+    { destruct t as [| b1 [| b2 [| b3 t]]]; try (eexists _, _; repeat split; lia).
+      destruct (Z.eqb_spec b0 240), (Z.eqb_spec b0 244);
+        (match goal with |- context [if ?c then _ else _] => destruct c eqn:C end; [| eexists _, _; repeat split; lia]);
+        (eexists _, _; split; [reflexivity |]; split; [| lia]; boolprops; Z.div_mod_to_equations; lia). }
+    eexists _, _. repeat split; lia.
+Qed.
+Example ex_utf8 : go_utf8_decode [0x41; 0x42] = (0x41, 1) /\ go_utf8_decode [0xC3; 0xA9] = (0xE9, 2)
+  /\ go_utf8_decode [0xE2; 0x82; 0xAC] = (0x20AC, 3) /\ go_utf8_decode [0xF0; 0x9F; 0x98; 0x80] = (0x1F600, 4)
+  /\ go_utf8_decode [0xC0; 0x80] = (0xFFFD, 1) /\ go_utf8_decode [0xED; 0xA0; 0x80] = (0xFFFD, 1)
+  /\ go_utf8_decode [0xE2; 0x82] = (0xFFFD, 1) /\ go_utf8_decode [0xF4; 0x90; 0x80; 0x80] = (0xFFFD, 1).
+Proof. repeat split. Qed.
+Example ex_range_string :
+  go_range_string (fun i r s => @LoopNext (list (Z * Z)) unit (s ++ [(i, r)])) 0 [0x61; 0xC3; 0xA9; 0xFF; 0x62] []
+  = LoopNext [(0, 0x61); (1, 0xE9); (3, 0xFFFD); (4, 0x62)].
+Proof. reflexivity. Qed.
